@@ -11,7 +11,24 @@ use serde_json::json;
 
 /// Produce a profile on the game from one of several sources; returns (source name, strategies)
 pub fn some_strategies<'a>(rng: &mut Rng, game: &'a G, flat: &Flat) -> Option<(String, S<'a>)> {
-    match rng.below(8) {
+    match rng.below(9) {
+        8 => {
+            // imported with weights that are not normalised: the same profile written in very
+            // small, small, ordinary or very large units per infoset (all legal weights)
+            let kind = rng.below(gen::PROFILE_KINDS);
+            let mut prof = gen::random_profile(rng, flat, kind);
+            let tiny = (2.0f64).powi(-520) * (2.0f64).powi(-(rng.range(500, 545) as i32));
+            for pl in prof.iter_mut() {
+                for v in pl.iter_mut() {
+                    let f = *rng.pick(&[tiny, 1e-300, 1e-20, 3.0, 1e300]);
+                    if v.len() > 1 {
+                        v.iter_mut().for_each(|x| *x *= f);
+                    }
+                }
+            }
+            let s = bridge::inject(game, flat, &prof).ok()?;
+            Some((format!("from_named(kind {}, infosets rescaled to tiny/large units)", kind), s))
+        }
         0 | 1 => {
             let m = gen::METHODS[rng.below(3)];
             let t = *rng.pick(&[0u64, 1, 2, 5, 30]);
@@ -192,7 +209,7 @@ pub fn run(ctx: &mut Ctx) {
         }
     });
     ctx.finish(crate::report::extra(
-        "cases = (game, profile): G1/G2 games x profiles from {solver output of a random method/preset/budget, truncated solver output, from_named of random/pure/sparse/near-uniform/tiny/skewed profiles}. The expected named view is built from the dense stored probabilities (hook verif_probs) and the harness tree; as_named must list every infoset once with exactly the positive-probability actions (single-action infosets as (action,1)), len() of the infoset iterator and of every action iterator is queried before every next() and must equal the number of items still to come, and from_named/from_named_eq(as_named(s)) must reproduce s (bit-identical or within 1e-15). distinct = hash(tree, stored probabilities); non-trivial = the game has at least one infoset.",
+        "cases = (game, profile): G1/G2 games x profiles from {solver output of a random method/preset/budget, truncated solver output, from_named of random/pure/sparse/near-uniform/tiny/skewed profiles, the same imported with each infoset's weights rescaled to units from {2^-1020..2^-1065, 1e-300, 1e-20, 3, 1e300}}. The expected named view is built from the dense stored probabilities (hook verif_probs) and the harness tree; as_named must list every infoset once with exactly the positive-probability actions (single-action infosets as (action,1)), len() of the infoset iterator and of every action iterator is queried before every next() and must equal the number of items still to come, and from_named/from_named_eq(as_named(s)) must reproduce s (bit-identical or within 1e-15). distinct = hash(tree, stored probabilities); non-trivial = the game has at least one infoset.",
         &["infoset alignment by name through the public API", "round-trip tolerance 1e-15 absolute on probabilities"],
     ));
 }
